@@ -1853,7 +1853,9 @@ func (r *Runtime) toValue(i interface{}, origValue reflect.Value) Value {
 	case string:
 		if len(i) <= 16 {
 			if u := unistring.Scan(i); u != nil {
-				return &importedString{s: i, u: u, scanned: true}
+				s := &importedString{s: i, u: u}
+				s.scanned.Store(true)
+				return s
 			}
 			return asciiString(i)
 		}
